@@ -117,6 +117,21 @@ def step (s : Abs) (op : Op) : Option (Abs × Option Int) :=
   | .aget v i => if v < 2 then liftA s v (get (s.getA v) i) else none
   | .afront v => if v < 2 then liftA s v (front (s.getA v)) else none
   | .aback v => if v < 2 then liftA s v (back (s.getA v)) else none
+  -- the container itself / a reference into it as argument: as if the argument had been copied first
+  | .lappendself v => if v < 2 then liftL s v (const (s.getL v ++ s.getL v)) else none
+  | .lprependself v => if v < 2 then liftL s v (const (s.getL v ++ s.getL v)) else none
+  | .linsertself v pos => if v < 2 then liftL s v (insert (s.getL v) pos (s.getL v)) else none
+  | .lassignself v => if v < 2 then some (s, none) else none
+  | .aappendself v => if v < 2 then liftA s v (const (s.getA v ++ s.getA v)) else none
+  | .aappendref v i =>
+    if v < 2 then liftA s v (match (s.getA v)[i]? with
+      | some x => insert (s.getA v) (s.getA v).length [x]
+      | none => none) else none
+  | .aresizeref v n i =>
+    if v < 2 then liftA s v (match (s.getA v)[i]? with
+      | some x => resize (s.getA v) n x
+      | none => none) else none
+  | .aassignself v => if v < 2 then some (s, none) else none
   | .aeq v w => if v < 2 ∧ w < 2 then some (s, some (if s.getA v = s.getA w then 1 else 0)) else none
 
 /-- run a history on the reference sequences (operations whose precondition fails are skipped) -/
